@@ -64,10 +64,37 @@ func ints(vs ...int64) []string {
 func genOps(rt *rapid.T, n int) []opProbe {
 	var out []opProbe
 	pick := func(label string, xs []string) string { return rapid.SampledFrom(xs).Draw(rt, label) }
+	for len(out) < n {
+		out = append(out, genOp(rt, rapid.IntRange(0, 27).Draw(rt, "opkind"), pick)...)
+	}
+	return out
+}
+
+// sweepOps visits every kind with a pick that cycles through each variant list, so that every
+// listed variant occurs at least once per run (the other draws stay random).
+func sweepOps(rt *rapid.T) []opProbe {
+	var out []opProbe
+	for k := 0; k <= 27; k++ {
+		pos := map[string]int{}
+		pick := func(label string, xs []string) string {
+			x := xs[pos[label]%len(xs)]
+			pos[label]++
+			return x
+		}
+		for it := 0; it < 20; it++ {
+			out = append(out, genOp(rt, k, pick)...)
+		}
+	}
+	return out
+}
+
+// genOp draws the probes of one kind.
+func genOp(rt *rapid.T, k int, pick func(label string, xs []string) string) []opProbe {
+	var out []opProbe
 	idx32 := []string{"-1", "0", "1", "2", "3", "4", "5", "2147483647", "-2147483648"}
 	idxTypes := []string{"int", "int8", "int64", "uint", "uint64", "uint8"}
-	for len(out) < n {
-		switch k := rapid.IntRange(0, 27).Draw(rt, "opkind"); k {
+	{
+		switch k {
 		case 0, 1: // index of slice / array / string / pointer to array with a variable index
 			cont := pick("cont", []string{"sl", "arr", "str", "parr", "nilsl", "sub"})
 			it := pick("ityp", idxTypes)
@@ -121,7 +148,7 @@ func genOps(rt *rapid.T, n int) []opProbe {
 			decl := "var f func(int) int; var t struct{ g func() }; _, _ = f, t"
 			op := pick("nilfunc", []string{"use(f(lg(1, 2)))", "t.g()", "defer f(1)", "go t.g()"})
 			if strings.HasPrefix(op, "go ") {
-				continue // a nil func in a go statement crashes the whole program in Go
+				return nil // a nil func in a go statement crashes the whole program in Go
 			}
 			out = append(out, opProbe{"nil-func " + op, decl, op})
 		case 8, 9: // integer division
@@ -179,7 +206,7 @@ func genOps(rt *rapid.T, n int) []opProbe {
 			out = append(out, opProbe{"nested-nil " + op, decl, op})
 		case 25: // method values and interface calls on nil
 			decl := "var i I; var pi *impl; var ip I = pi; _, _, _ = i, pi, ip"
-			op := pick("nilcall", []string{"use(i.M())", "f := i.M; use(f())", "use(ip.M())", "g := ip.M; use(g())", "use(pi.M())", "h := I.M; use(h(i))", "sinkB = ip == nil", "sinkB = i == nil"})
+			op := pick("nilcall", []string{"use(i.M())", "f := i.M; use(f())", "use(ip.M())", "g := ip.M; use(g())", "use(pi.M())", "h := I.M; use(h(i))", "sinkB = ip == nil", "sinkB = i == nil", "f := i.M; lg(1, 1); use(f())", "g := ip.M; lg(1, 1); use(g())", "var e struct{ I }; f := e.M; lg(1, 1); use(f())", "var e struct{ I }; lg(1, 1); use(e.M())", "h := I.M; lg(1, 1); use(h(i))", "f := pi.M; lg(1, 1); use(f())"})
 			out = append(out, opProbe{"nil-call " + op, decl, op})
 		case 26: // string conversions and indexing with constants in range, variable out of range
 			decl := "s := \"héllo\"; b := []byte(s); rs := []rune(s); j := len(s); _, _, _, _ = s, b, rs, j"
